@@ -31,13 +31,19 @@ def fixtures():
         cfg0 = sc.default_config(s)
         profile = [rnd.randint(1, 6) for _ in range(rnd.randint(2, 5))]
         db = sc.make_db(profile, sc.id_size_of(cfg0), rnd)
-        fx[s] = {"cfg": sc.workflow_config(s, db), "db": db, "absent": sc.rand_kw(rnd, 7)}
+        # a second service of the SAME scheme with other parameters, served by the same server process
+        cfg1 = dict(cfg0, param_identifier_size=4 if sc.id_size_of(cfg0) != 4 else 8)
+        db1 = sc.make_db([2, 1, 3], sc.id_size_of(cfg1), rnd)
+        fx[s] = {"cfg": sc.workflow_config(s, db), "db": db, "absent": sc.rand_kw(rnd, 7),
+                 "decoy_cfg": sc.fit_config(s, cfg1, db1), "decoy_db": db1}
     return fx
 
 
 class Run(c11.Run):
-    def __init__(self, fx, base, scheme):
-        super().__init__({"cfg": fx["cfg"], "db": fx["db"], "bad": [fx["cfg"]]}, base)
+    def __init__(self, fx, base, scheme, k=0):
+        # odd cases: the server's cleanup takes a little real time, so every immediate reconnect has to wait for its turn
+        super().__init__({"cfg": fx["cfg"], "db": fx["db"], "bad": [fx["cfg"]]}, base, cleanup_delay=0.03 if k % 2 else 0.0)
+        self.decoy = (fx["decoy_cfg"], fx["decoy_db"]) if k % 3 == 0 else None
         self.scheme = scheme
         self.absent = fx["absent"]
         self.nsearch = 0
@@ -77,8 +83,24 @@ class Run(c11.Run):
         self.ev.append({"op": sym, "out": out, "correct": bool(r.get("correct", False)),
                         "raw": r["out"] + ":" + r.get("err", "") + ":" + r.get("msg", "")[:100], "o": self.observe(before)})
 
+    async def run_decoy(self):
+        """another service of the same scheme, with other parameters, goes through the workflow on the same server first"""
+        cfg, db = self.decoy
+        r = await self.w.client_op("create", "", copy.deepcopy(cfg))
+        sid = r.get("sid", "")
+        outs = [r["out"]]
+        for op, arg in (("genkey", None), ("encrypt", copy.deepcopy(db)), ("upconfig", None), ("upindex", None)):
+            outs.append((await self.w.client_op(op, sid, arg))["out"])
+        kw = next(iter(db))
+        r = await self.w.client_op("search", sid, kw)
+        ok = all(o == "ok" for o in outs) and r["out"] == "ok" and sc.same_result(self.scheme, r["result"], db[kw])
+        self.decoy_ok = ok
+        self.decoy_sid = sid
+
     async def run(self, hist):
         await self.w.start_server()
+        if self.decoy is not None:
+            await self.run_decoy()
         for s in hist:
             await self.step(s)
         await self.w.shutdown()
@@ -87,7 +109,7 @@ class Run(c11.Run):
 
 def replay(fx, scheme, hist, k):
     d = os.path.join(subdir("c09-data"), "h%d" % k)
-    r = Run(fx[scheme], d, scheme)
+    r = Run(fx[scheme], d, scheme, k)
     loop = asyncio.new_event_loop()
     loop.set_exception_handler(lambda l, c: None)
     try:
